@@ -112,6 +112,21 @@ def drCmp (a b : Cfg) : Ordering :=
 
 def sortConfigBySelectorAndCreationTime (l : List Cfg) : List Cfg := isort (ltOf drCmp) l
 
+/-! ### model.SortWorkloadsByCreationTime -/
+
+/-- `WorkloadInfo`: creation time and `Workload.Uid`. -/
+structure Wl where
+  id   : Nat
+  time : Nat
+  uid  : String
+  deriving DecidableEq, Repr, Inhabited
+
+/-- The `less` closure (`sort.SliceStable`). -/
+def wlLess (a b : Wl) : Bool :=
+  if a.time = b.time then decide (a.uid < b.uid) else decide (a.time < b.time)
+
+def sortWorkloadsByCreationTime (l : List Wl) : List Wl := isort wlLess l
+
 /-! ### EndpointShards.Keys -/
 
 structure ShardKey where
